@@ -6,6 +6,7 @@ from ..model import AnalysisError, own_nodes, norm_src
 from ..peval import FuncV, Ext, CallV, DictV, Const, SeqV, is_const
 from ..report import RuleResult
 from ..util import key_of, src, call_name, kwarg
+from ..pattern import find, has, match
 
 META = {
     'decides': (
@@ -158,9 +159,7 @@ def rule_mask(ctx):
         rr.note('_x2dec return shape not recognised (not checked): %s' % txt[:80])
     d2 = p.func(ENG, '_dec2x')
     rr.instances += 1
-    rng = [n for n in own_nodes(d2) if isinstance(n, ast.Compare)
-           and len(n.ops) == 2]
-    ok = any(norm_src(n) == '-y <= x < y' for n in rng)
+    ok = has('-__y <= __x < __y', d2) or has('-__y <= x < __y', d2)
     if ok:
         rr.ok('_dec2x accepts exactly -mask <= x < mask', ENG)
     else:
@@ -351,16 +350,20 @@ def rule_weekday(ctx):
     # abstractly execute the mode dispatch for n in 0..20
     body = f.node.body
 
+    zvar = 'zero'
+    for nd, b in find('int(serial_number + 7 - n) % 7 or __z', f):
+        zvar = b['__z']
+
     def run(n):
-        env = {'n': n, 'zero': None}
+        env = {'n': n, zvar: None}
         # find initial zero constant: `n, serial_number, zero = int(n), int(..), 7`
         for st in body:
             if isinstance(st, ast.Assign) and isinstance(st.value, ast.Tuple) \
                     and isinstance(st.targets[0], ast.Tuple):
                 for t, v in zip(st.targets[0].elts, st.value.elts):
-                    if isinstance(t, ast.Name) and t.id == 'zero' and \
+                    if isinstance(t, ast.Name) and t.id == zvar and \
                             isinstance(v, ast.Constant):
-                        env['zero'] = v.value
+                        env[zvar] = v.value
         def ev(e):
             if isinstance(e, ast.Constant):
                 return e.value
@@ -419,7 +422,7 @@ def rule_weekday(ctx):
                     t = norm_src(st.value)
                     if '#NUM!' in t:
                         return 'NUM'
-                    return ('OK', env['n'], env['zero'], t)
+                    return ('OK', env['n'], env[zvar], t.replace(zvar, 'zero'))
             return None
 
         return block(body)
@@ -488,9 +491,7 @@ def rule_time(ctx):
                 'seconds (%s)' % (got, want), file=DATE, function='xtime',
                 line=xt.lineno)
     rr.instances += 1
-    mods = [norm_src(n) for n in own_nodes(xt) if isinstance(n, ast.BinOp)
-            and isinstance(n.op, ast.Mod)]
-    if 'v % 1' in mods:
+    if has('__v % 1', xt):
         rr.ok('xtime keeps the fraction of a day (v % 1)', DATE)
     else:
         rr.fail(key_of(xt, 'fraction of a day'),
@@ -502,7 +503,7 @@ def rule_time(ctx):
         n, ast.BinOp) and isinstance(n.op, ast.Mult) and isinstance(
         n.right, ast.Constant))
     rets = [norm_src(n.value) for n in own_nodes(nt) if isinstance(n, ast.Return)]
-    if muls == [24, 60, 60] and rets and rets[0].startswith('(hours % 24, mins,'):
+    if muls == [24, 60, 60] and has('(__h % 24, __m, ___s)', nt):
         rr.ok('_n2time splits a day fraction by 24, 60, 60 and wraps hours '
               'modulo 24', DATE)
     else:
